@@ -90,6 +90,12 @@ def run(ctx, ck) -> None:
               instance='kind')
     if ok_ctor:
         default = next((kw.value for kw in binding.value.keywords if kw.arg == 'default'), None)
+        if isinstance(default, ast.Name):
+            # a module-level name bound exactly once stands for its value
+            stores = [n for n in ast.walk(cfg.tree) if isinstance(n, ast.Name) and n.id == default.id and isinstance(n.ctx, ast.Store)]
+            d = cfg.defs.get(default.id)
+            if len(stores) == 1 and isinstance(d, ast.Assign) and enclosing(d, (ast.FunctionDef, ast.ClassDef)) is None:
+                default = d.value
         is_state = (
             isinstance(default, ast.Call)
             and world.qualify(cfg, default.func) == f'{CONFIG}.ConfigState'
